@@ -3,6 +3,7 @@
 use crate::walker::*;
 use serde_json::{json, Value};
 use std::io::Cursor;
+use std::sync::OnceLock;
 use vcore::*;
 use wow_wdt::chunks::maid::MaidSection;
 use wow_wdt::chunks::mphd::FileDataIds;
@@ -11,7 +12,9 @@ use wow_wdt::conversion::convert_wdt;
 use wow_wdt::version::WowVersion;
 use wow_wdt::{WdtFile, WdtReader, WdtWriter};
 
-pub const VERSIONS: [WowVersion; 8] = [
+/// the first 8 (Classic..BfA) are the versions of the property text and of the quick tier; the thorough tier
+/// adds the two later versions the crate declares as supported
+pub const VERSIONS: [WowVersion; 10] = [
     WowVersion::Classic,
     WowVersion::TBC,
     WowVersion::WotLK,
@@ -20,9 +23,13 @@ pub const VERSIONS: [WowVersion; 8] = [
     WowVersion::WoD,
     WowVersion::Legion,
     WowVersion::BfA,
+    WowVersion::Shadowlands,
+    WowVersion::Dragonflight,
 ];
-pub const VNAMES: [&str; 8] = ["Classic", "TBC", "WotLK", "Cataclysm", "MoP", "WoD", "Legion", "BfA"];
+pub const VNAMES: [&str; 10] = ["Classic", "TBC", "WotLK", "Cataclysm", "MoP", "WoD", "Legion", "BfA", "Shadowlands", "Dragonflight"];
 const BFA: usize = 7;
+/// number of versions in the thorough tier
+pub const NV: usize = 10;
 
 pub fn vname(v: WowVersion) -> String {
     match VERSIONS.iter().position(|x| *x == v) {
@@ -183,21 +190,44 @@ impl WdtModel {
 }
 
 pub struct Obj {
-    pub name: &'static str,
+    pub name: String,
     pub wmo_only: bool,
     pub mwmo: Option<usize>,
     pub modf: Option<usize>,
 }
-pub const OBJS: [Obj; 8] = [
-    Obj { name: "terrain", wmo_only: false, mwmo: None, modf: None },
-    Obj { name: "terrain+empty MWMO", wmo_only: false, mwmo: Some(0), modf: None },
-    Obj { name: "wmo-only: 1 name + 1 MODF", wmo_only: true, mwmo: Some(1), modf: Some(1) },
-    Obj { name: "wmo-only: 3 names + 3 MODF", wmo_only: true, mwmo: Some(3), modf: Some(3) },
-    Obj { name: "wmo-only: empty MWMO + empty MODF", wmo_only: true, mwmo: Some(0), modf: Some(0) },
-    Obj { name: "wmo-only: 1 name, no MODF", wmo_only: true, mwmo: Some(1), modf: None },
-    Obj { name: "terrain + 1 WMO name", wmo_only: false, mwmo: Some(1), modf: None },
-    Obj { name: "terrain + 1 MODF, no MWMO", wmo_only: false, mwmo: None, modf: Some(1) },
-];
+/// number of object shapes of the quick tier (the first 8 of `objs()`)
+pub const OBJS_Q: usize = 8;
+/// Object shapes.  The first 8 are the hand-picked shapes of the quick tier; the rest completes the full
+/// product map type {terrain, WMO-only} x MWMO {absent, 0, 1, 3 names} x MODF {absent, 0, 1, 3 records} (32).
+pub fn objs() -> &'static [Obj] {
+    static O: OnceLock<Vec<Obj>> = OnceLock::new();
+    O.get_or_init(|| {
+        let mut v = vec![
+            Obj { name: "terrain".into(), wmo_only: false, mwmo: None, modf: None },
+            Obj { name: "terrain+empty MWMO".into(), wmo_only: false, mwmo: Some(0), modf: None },
+            Obj { name: "wmo-only: 1 name + 1 MODF".into(), wmo_only: true, mwmo: Some(1), modf: Some(1) },
+            Obj { name: "wmo-only: 3 names + 3 MODF".into(), wmo_only: true, mwmo: Some(3), modf: Some(3) },
+            Obj { name: "wmo-only: empty MWMO + empty MODF".into(), wmo_only: true, mwmo: Some(0), modf: Some(0) },
+            Obj { name: "wmo-only: 1 name, no MODF".into(), wmo_only: true, mwmo: Some(1), modf: None },
+            Obj { name: "terrain + 1 WMO name".into(), wmo_only: false, mwmo: Some(1), modf: None },
+            Obj { name: "terrain + 1 MODF, no MWMO".into(), wmo_only: false, mwmo: None, modf: Some(1) },
+        ];
+        let opts = [None, Some(0usize), Some(1), Some(3)];
+        let show = |o: Option<usize>| o.map(|n| n.to_string()).unwrap_or_else(|| "absent".into());
+        for wmo_only in [false, true] {
+            for mwmo in opts {
+                for modf in opts {
+                    if v.iter().any(|o| o.wmo_only == wmo_only && o.mwmo == mwmo && o.modf == modf) {
+                        continue;
+                    }
+                    v.push(Obj { name: format!("{} (product): MWMO names {}, MODF records {}", if wmo_only { "wmo-only" } else { "terrain" }, show(mwmo), show(modf)), wmo_only, mwmo, modf });
+                }
+            }
+        }
+        assert_eq!(v.len(), 32);
+        v
+    })
+}
 
 fn names(n: usize) -> Vec<String> {
     let pool = [
@@ -241,13 +271,130 @@ fn modfs(n: usize) -> Vec<Modf> {
     pool[..n].to_vec()
 }
 
-pub const MAID_MODES: [&str; 5] = ["none", "8 sections + flag 0x200 + header file ids", "5 sections + flag 0x200", "8 sections, flag 0x200 clear", "flag 0x200 set, no MAID chunk"];
+/// A name of exactly `len` bytes: valid UTF-8 without NUL, starts with the hex index (distinct per `k` once
+/// `len` can hold it), contains path separators, spaces and (when it fits) one 2-byte character.
+pub fn gen_name(k: usize, len: usize) -> String {
+    const FILL: &[u8] = b"abcdefghijklmnopqrstuvwxyz0123456789_\\ .ABCDEFGHIJKLMNOPQRSTUVWXYZ-";
+    let prefix = format!("{k:x}\\");
+    let mut s = String::with_capacity(len);
+    let two_byte_at = 3 + k % 5;
+    let mut i = 0usize;
+    while s.len() < len {
+        let left = len - s.len();
+        if i == two_byte_at && left >= 2 {
+            s.push('\u{00fc}');
+        } else if i < prefix.len() {
+            s.push(prefix.as_bytes()[i] as char);
+        } else {
+            s.push(FILL[(i * 7 + k) % FILL.len()] as char);
+        }
+        i += 1;
+    }
+    debug_assert_eq!(s.len(), len);
+    s
+}
+
+/// name-list shapes of the large-object spaces: (label, list); `None` = no name chunk in the definition
+pub const NAME_SHAPES: [&str; 19] = [
+    "absent",
+    "0 names",
+    "1 name of 1 byte",
+    "1 name of 2 bytes",
+    "1 name of 255 bytes",
+    "1 name of 256 bytes",
+    "1 name of 257 bytes",
+    "1 name of 65535 bytes",
+    "1 name of 65536 bytes",
+    "1 name of 70001 bytes",
+    "2 names of 1 byte",
+    "3 names (path, 1 byte, 300+ bytes with non-ASCII)",
+    "255 names of 9 bytes",
+    "256 names of 9 bytes",
+    "257 names of 9 bytes",
+    "1000 names of 40 bytes",
+    "4096 names of 3 bytes",
+    "65536 names of 5 bytes",
+    "2 identical names",
+];
+pub fn name_shape(k: usize) -> Option<Vec<String>> {
+    let many = |n: usize, len: usize| Some((0..n).map(|j| gen_name(j, len)).collect::<Vec<_>>());
+    match k {
+        0 => None,
+        1 => Some(vec![]),
+        2 => many(1, 1),
+        3 => many(1, 2),
+        4 => many(1, 255),
+        5 => many(1, 256),
+        6 => many(1, 257),
+        7 => many(1, 65535),
+        8 => many(1, 65536),
+        9 => many(1, 70001),
+        10 => many(2, 1),
+        11 => Some(names(3)),
+        12 => many(255, 9),
+        13 => many(256, 9),
+        14 => many(257, 9),
+        15 => many(1000, 40),
+        16 => many(4096, 3),
+        17 => many(65536, 5),
+        18 => Some(vec!["World\\wmo\\dup.wmo".to_string(); 2]),
+        _ => panic!("name shape {k}"),
+    }
+}
+
+/// record counts of the large-object spaces; `None` = no placement chunk in the definition
+pub const MODF_COUNTS: [Option<usize>; 13] = [None, Some(0), Some(1), Some(2), Some(3), Some(255), Some(256), Some(257), Some(1023), Some(1024), Some(1025), Some(4096), Some(65536)];
+fn nn(b: u32) -> u32 {
+    if f32::from_bits(b).is_nan() {
+        fb(-7.25)
+    } else {
+        b
+    }
+}
+/// the k-th generated placement: every field is a distinct hash of (k, field)
+pub fn gen_modf(k: usize) -> Modf {
+    let k = k as u32;
+    let mut f = [0u32; 12];
+    for (j, x) in f.iter_mut().enumerate() {
+        *x = nn(mix(k, j as u32, 77));
+    }
+    Modf { id: mix(k, 1, 78), uid: k ^ 0x8000_0000, f, flags: mix(k, 2, 78) as u16, dset: mix(k, 3, 78) as u16, nset: mix(k, 4, 78) as u16, scale: mix(k, 5, 78) as u16 }
+}
+pub fn gen_modfs(n: usize) -> Vec<Modf> {
+    if n <= 3 {
+        return modfs(n);
+    }
+    (0..n).map(gen_modf).collect()
+}
+
+pub const MAID_MODES: [&str; 8] = [
+    "none",
+    "8 sections + flag 0x200 + header file ids",
+    "5 sections + flag 0x200",
+    "8 sections, flag 0x200 clear",
+    "flag 0x200 set, no MAID chunk",
+    "0 sections (empty MAID chunk) + flag 0x200",
+    "1 section + flag 0x200",
+    "9 sections (one beyond the 8 named, zero-filled) + flag 0x200",
+];
+/// MAID modes of the quick tier: 0..5
+pub const MAID_MODES_Q: usize = 5;
 
 /// (version index, maid mode): MAID only exists from BfA on
 pub fn vm_list() -> Vec<(usize, usize)> {
     let mut v: Vec<(usize, usize)> = (0..8).map(|i| (i, 0)).collect();
-    for m in 1..5 {
+    for m in 1..MAID_MODES_Q {
         v.push((BFA, m));
+    }
+    v
+}
+/// thorough: all 10 versions without MAID, then every MAID mode for each of the three versions that have the chunk
+pub fn vm_list_thorough() -> Vec<(usize, usize)> {
+    let mut v: Vec<(usize, usize)> = (0..NV).map(|i| (i, 0)).collect();
+    for vi in BFA..NV {
+        for m in 1..MAID_MODES.len() {
+            v.push((vi, m));
+        }
     }
     v
 }
@@ -273,12 +420,12 @@ pub fn flagsets(pairs: bool) -> Vec<u32> {
 }
 
 pub fn make_model(vi: usize, maid_mode: usize, g: GridSel, values: usize, free_flags: u32, obj: usize) -> WdtModel {
-    let o = &OBJS[obj];
+    let o = &objs()[obj];
     let mut flags = free_flags & 0xFDFE;
     if o.wmo_only {
         flags |= 1;
     }
-    if matches!(maid_mode, 1 | 2 | 4) {
+    if matches!(maid_mode, 1 | 2 | 4 | 5 | 6 | 7) {
         flags |= 0x200;
     }
     let words = if values == 0 { [0u32; 7] } else { [0xA000_0001, 2, u32::MAX, 0x0012_D687, 0x8000_0000, 5, 0x7FFF_FFFF] };
@@ -288,14 +435,23 @@ pub fn make_model(vi: usize, maid_mode: usize, g: GridSel, values: usize, free_f
             tiles.push(tile_value(values, g.has(x, y), x, y));
         }
     }
-    let nsec = match maid_mode {
-        1 | 3 => 8,
-        2 => 5,
-        _ => 0,
+    // Some(n) = a MAID chunk with n sections
+    let nsec: Option<u32> = match maid_mode {
+        1 | 3 => Some(8),
+        2 => Some(5),
+        5 => Some(0),
+        6 => Some(1),
+        7 => Some(9),
+        _ => None,
     };
-    let maid = if nsec > 0 {
+    let maid = nsec.map(|nsec| {
         let mut secs = vec![];
-        for s in 0..nsec as u32 {
+        for s in 0..nsec {
+            if s >= 8 {
+                // sections beyond the 8 named ones cannot be addressed through the API: zero-filled, represented as empty
+                secs.push(vec![]);
+                continue;
+            }
             let mut sec = vec![0u32; 4096];
             for y in 0..64u32 {
                 for x in 0..64u32 {
@@ -309,10 +465,8 @@ pub fn make_model(vi: usize, maid_mode: usize, g: GridSel, values: usize, free_f
             }
             secs.push(sec);
         }
-        Some(secs)
-    } else {
-        None
-    };
+        secs
+    });
     WdtModel { version: VERSIONS[vi], flags, words, tiles, maid, mwmo: o.mwmo.map(names), modf: o.modf.map(modfs) }
 }
 
@@ -340,6 +494,9 @@ pub fn build(m: &WdtModel) -> WdtFile {
     if let Some(secs) = &m.maid {
         let mut maid = if secs.len() == 8 { MaidChunk::new() } else { MaidChunk::with_section_count(secs.len()) };
         for (s, sec) in secs.iter().enumerate() {
+            if sec.is_empty() {
+                continue; // zero-filled section beyond the named ones
+            }
             for y in 0..64usize {
                 for x in 0..64usize {
                     let id = sec[y * 64 + x];
@@ -533,8 +690,9 @@ pub fn walk_check(bytes: &[u8], m: &WdtModel, pre: &str, r: &mut CaseResult) {
                 'o: for (s, sec) in secs.iter().enumerate() {
                     for idx in 0..4096 {
                         let got = u32le(d, (s * 4096 + idx) * 4);
-                        if got != sec[idx] {
-                            r.viol(format!("{pre}: MAID file id at [section][y*64+x] in written bytes differs from the definition (section / tile order)"), format!("section {} tile {} written={:#x} definition={:#x}", s, xy(idx), got, sec[idx]));
+                        let want = if sec.is_empty() { 0 } else { sec[idx] };
+                        if got != want {
+                            r.viol(format!("{pre}: MAID file id at [section][y*64+x] in written bytes differs from the definition (section / tile order)"), format!("section {} tile {} written={:#x} definition={:#x}", s, xy(idx), got, want));
                             break 'o;
                         }
                     }
@@ -554,7 +712,7 @@ pub fn walk_check(bytes: &[u8], m: &WdtModel, pre: &str, r: &mut CaseResult) {
                 match modf_records(d) {
                     Ok(got) => {
                         if got != want {
-                            r.viol(format!("{pre}: MODF placement records in written bytes differ from the definition"), format!("written={:?} definition={:?}", got, want));
+                            r.viol(format!("{pre}: MODF placement records in written bytes differ from the definition"), format!("written={} definition={}", brief(&got), brief(&want)));
                         }
                     }
                     Err(e) => r.viol(format!("{pre}: MODF chunk in written bytes is not a whole number of 64-byte records"), e),
@@ -604,7 +762,17 @@ pub fn compare(exp: &WdtModel, got: &WdtModel, pre: &str, r: &mut CaseResult) {
         r.viol(format!("{pre}: read(write(f)) differs in the MWMO name list"), format!("version={} wmo_only={} got={:?} want={:?}", vname(exp.version), exp.wmo_only(), got.mwmo.as_ref().map(|v| v.len()), want_mwmo.as_ref().map(|v| v.len())));
     }
     if got.modf != exp.modf {
-        r.viol(format!("{pre}: read(write(f)) differs in MODF placements"), format!("got={:?} want={:?}", got.modf, exp.modf));
+        let b = |o: &Option<Vec<Modf>>| o.as_ref().map(|v| brief(v)).unwrap_or_else(|| "absent".into());
+        r.viol(format!("{pre}: read(write(f)) differs in MODF placements"), format!("got={} want={}", b(&got.modf), b(&exp.modf)));
+    }
+}
+
+/// short rendering of a possibly very long list (details only)
+pub fn brief<T: std::fmt::Debug>(v: &[T]) -> String {
+    if v.len() <= 4 {
+        format!("{:?}", v)
+    } else {
+        format!("[{} records, first {:?}, last {:?}]", v.len(), v[0], v[v.len() - 1])
     }
 }
 
@@ -633,12 +801,19 @@ pub fn roundtrip(w: &WdtFile, m: &WdtModel, pre: &str, r: &mut CaseResult) -> St
     }
     let got = extract(&back);
     compare(m, &got, pre, r);
-    // accessor view of the tiles (x/y convention of get_tile)
-    for (x, y) in [(0usize, 0usize), (63, 0), (0, 63), (63, 63), (5, 40), (40, 5)] {
+    // accessor view of the tiles (x/y convention of get_tile): the six probe tiles first, then the whole grid
+    let probes = [(0usize, 0usize), (63, 0), (0, 63), (63, 63), (5, 40), (40, 5)];
+    for (x, y) in probes.into_iter().chain((0..4096usize).map(|i| (i % 64, i / 64))) {
         match back.get_tile(x, y) {
             Some(t) => {
                 if (t.flags, t.area_id) != m.tiles[y * 64 + x] || t.x != x || t.y != y {
                     r.viol(format!("{pre}: get_tile(x,y) after read(write(f)) reports another tile's flags / area id"), format!("tile (x={x},y={y}) got=(flags {:#x}, area {:#x})", t.flags, t.area_id));
+                    break;
+                }
+                // tile presence as the accessor reports it (MAIN flag bit 0, or the MAID root id when a MAID chunk exists)
+                // must be the same before the write and after the read
+                if w.get_tile(x, y).map(|o| o.has_adt) != Some(t.has_adt) {
+                    r.viol(format!("{pre}: get_tile(x,y).has_adt (tile presence) differs between the file before write and after read"), format!("tile (x={x},y={y}) after read has_adt={}", t.has_adt));
                     break;
                 }
             }
@@ -648,6 +823,10 @@ pub fn roundtrip(w: &WdtFile, m: &WdtModel, pre: &str, r: &mut CaseResult) -> St
             }
         }
     }
+    if w.count_existing_tiles() != back.count_existing_tiles() {
+        r.viol(format!("{pre}: count_existing_tiles differs between the file before write and after read"), format!("before={} after={}", w.count_existing_tiles(), back.count_existing_tiles()));
+    }
+    r.count("wdt_get_tile_probes", 4096 + 6);
     if m.mwmo.is_some() && !m.mwmo_on_disk() {
         r.count("wdt_mwmo_not_emitted_by_version_rule", 1);
         if m.mwmo.as_ref().map(|v| !v.is_empty()).unwrap_or(false) {
@@ -681,18 +860,49 @@ pub struct RtCase {
     obj: usize,
 }
 
+type Gen<T> = Box<dyn Fn(u64) -> T + Send + Sync>;
+fn from_vec<T: Copy + Send + Sync + 'static>(v: Vec<T>) -> (u64, Gen<T>) {
+    (v.len() as u64, Box::new(move |i| v[i as usize]))
+}
+/// concatenation of product blocks: (number of cases, decoder of the block-local index)
+fn blocks<T: 'static>(bs: Vec<(u64, Gen<T>)>) -> (u64, Gen<T>) {
+    let total: u64 = bs.iter().map(|b| b.0).sum();
+    (
+        total,
+        Box::new(move |mut i| {
+            for (n, g) in &bs {
+                if i < *n {
+                    return g(i);
+                }
+                i -= *n;
+            }
+            panic!("index beyond the space")
+        }),
+    )
+}
+
 pub struct WdtRoundtrip {
     name: &'static str,
-    cases: Vec<RtCase>,
+    len: u64,
+    gen: Gen<RtCase>,
+}
+
+/// the MPHD flag words with bit 0x200 clear (`set` = false) or set, in ascending order
+fn word_with_maid_bit(k: u32, set: bool) -> u32 {
+    // insert bit 9 into the 15-bit number k
+    let low = k & 0x1FF;
+    let high = (k >> 9) << 10;
+    high | low | if set { 0x200 } else { 0 }
 }
 
 impl WdtRoundtrip {
     /// every single tile x (version, MAID mode) x {terrain as usual for the version, WMO-only}
     pub fn single(tier: Tier) -> Self {
-        let mut cases = vec![];
         let objs: Vec<usize> = tier.pick(vec![usize::MAX, 2], vec![usize::MAX, 2, 3, 7]);
+        let vms = tier.pick(vm_list(), vm_list_thorough());
+        let mut cases = vec![];
         for &obj in &objs {
-            for (vi, maid) in vm_list() {
+            for &(vi, maid) in &vms {
                 for t in 0..4096u32 {
                     let (x, y) = (t % 64, t / 64);
                     // usize::MAX = the usual terrain shape of that version: empty MWMO before Cataclysm, none after
@@ -701,54 +911,110 @@ impl WdtRoundtrip {
                 }
             }
         }
-        // simplest first: stable sort by tile so that low indices are low tiles
-        WdtRoundtrip { name: "wdt_single", cases }
+        let (len, gen) = from_vec(cases);
+        WdtRoundtrip { name: "wdt_single", len, gen }
     }
     /// grids x value modes x flag sets x object shapes x (version, MAID mode)
     pub fn main(tier: Tier) -> Self {
-        let mut cases = vec![];
-        let fl = flagsets(tier == Tier::Thorough);
-        for (vi, maid) in vm_list() {
-            for obj in 0..OBJS.len() {
-                for &flags in &fl {
-                    for values in 0..2 {
-                        for p in 0..GRIDS.len() {
-                            cases.push(RtCase { vi, maid, g: GridSel::Pat(p), values, flags, obj });
+        if tier == Tier::Quick {
+            let mut cases = vec![];
+            let fl = flagsets(false);
+            for (vi, maid) in vm_list() {
+                for obj in 0..OBJS_Q {
+                    for &flags in &fl {
+                        for values in 0..2 {
+                            for p in 0..GRIDS.len() {
+                                cases.push(RtCase { vi, maid, g: GridSel::Pat(p), values, flags, obj });
+                            }
                         }
                     }
                 }
             }
+            let (len, gen) = from_vec(cases);
+            return WdtRoundtrip { name: "wdt_main", len, gen };
         }
-        WdtRoundtrip { name: "wdt_main", cases }
+        // thorough, block 1: 31 (version, MAID mode) x the 8 hand-picked object shapes x 109 flag sets (incl. all bit pairs) x 2 x 14 grids
+        // block 2: 31 x the 24 remaining shapes of the 32-shape product x the 18 non-pair flag sets x 2 x 14 grids
+        let vms = vm_list_thorough();
+        let mk = move |objs: std::ops::Range<usize>, fl: Vec<u32>| -> (u64, Gen<RtCase>) {
+            let vms = vms.clone();
+            let rad = [GRIDS.len() as u64, 2, fl.len() as u64, objs.len() as u64, vms.len() as u64];
+            (
+                gen::product(&rad),
+                Box::new(move |i| {
+                    let d = gen::mixed_radix(i, &rad);
+                    let (vi, maid) = vms[d[4] as usize];
+                    RtCase { vi, maid, g: GridSel::Pat(d[0] as usize), values: d[1] as usize, flags: fl[d[2] as usize], obj: objs.start + d[3] as usize }
+                }),
+            )
+        };
+        let (len, gen) = blocks(vec![mk(0..OBJS_Q, flagsets(true)), mk(OBJS_Q..objs().len(), flagsets(false))]);
+        WdtRoundtrip { name: "wdt_main", len, gen }
     }
     /// MPHD flag words x versions on a fixed asymmetric grid; bit 0 selects WMO-only, bit 0x200 the file-id header (+MAID in BfA)
     pub fn flags(tier: Tier) -> Self {
-        let mut words: Vec<u32> = vec![];
-        match tier {
-            Tier::Thorough => words.extend(0..=0xFFFFu32),
-            Tier::Quick => {
-                words.push(0);
-                for i in 0..16 {
-                    words.push(1 << i);
-                }
-                for i in 0..16 {
-                    for j in i + 1..16 {
-                        words.push((1 << i) | (1 << j));
-                    }
-                }
-                words.push(0xFFFF);
+        if tier == Tier::Quick {
+            let mut words: Vec<u32> = vec![0];
+            for i in 0..16 {
+                words.push(1 << i);
             }
-        }
-        let mut cases = vec![];
-        for &w in &words {
-            for vi in 0..8 {
-                let wmo = w & 1 != 0;
-                let maid = if w & 0x200 != 0 { if vi == BFA { 1 } else { 4 } } else { 0 };
-                let obj = if wmo { 2 } else if vi < 3 { 1 } else { 0 };
-                cases.push(RtCase { vi, maid, g: GridSel::Pat(9), values: 1, flags: w & 0xFDFE, obj });
+            for i in 0..16 {
+                for j in i + 1..16 {
+                    words.push((1 << i) | (1 << j));
+                }
             }
+            words.push(0xFFFF);
+            let mut cases = vec![];
+            for &w in &words {
+                for vi in 0..8 {
+                    let wmo = w & 1 != 0;
+                    let maid = if w & 0x200 != 0 { if vi == BFA { 1 } else { 4 } } else { 0 };
+                    let obj = if wmo { 2 } else if vi < 3 { 1 } else { 0 };
+                    cases.push(RtCase { vi, maid, g: GridSel::Pat(9), values: 1, flags: w & 0xFDFE, obj });
+                }
+            }
+            let (len, gen) = from_vec(cases);
+            return WdtRoundtrip { name: "wdt_flags", len, gen };
         }
-        WdtRoundtrip { name: "wdt_flags", cases }
+        // thorough: all 65536 words x all 10 versions x every MAID mode consistent with bit 0x200 (BfA: all of them;
+        // Shadowlands/Dragonflight: the plain one; earlier versions: flag without chunk) x 2 object shapes consistent with bit 0
+        let mk = |set: bool| -> (u64, Gen<RtCase>) {
+            let mut vms: Vec<(usize, usize)> = vec![];
+            for vi in 0..NV {
+                if vi < BFA {
+                    vms.push((vi, if set { 4 } else { 0 }));
+                } else if vi == BFA {
+                    let modes: &[usize] = if set { &[1, 2, 4, 5, 6, 7] } else { &[0, 3] };
+                    vms.extend(modes.iter().map(|&m| (vi, m)));
+                } else {
+                    vms.push((vi, if set { 1 } else { 0 }));
+                }
+            }
+            let rad = [2u64, vms.len() as u64, 32768];
+            (
+                gen::product(&rad),
+                Box::new(move |i| {
+                    let d = gen::mixed_radix(i, &rad);
+                    let w = word_with_maid_bit(d[2] as u32, set);
+                    let (vi, maid) = vms[d[1] as usize];
+                    let obj = match (w & 1 != 0, d[0]) {
+                        (true, 0) => 2,
+                        (true, _) => 5,
+                        (false, 0) => {
+                            if vi < 3 {
+                                1
+                            } else {
+                                0
+                            }
+                        }
+                        (false, _) => 7,
+                    };
+                    RtCase { vi, maid, g: GridSel::Pat(9), values: 1, flags: w & 0xFDFE, obj }
+                }),
+            )
+        };
+        let (len, gen) = blocks(vec![mk(false), mk(true)]);
+        WdtRoundtrip { name: "wdt_flags", len, gen }
     }
     fn model(&self, c: &RtCase) -> WdtModel {
         make_model(c.vi, c.maid, c.g, c.values, c.flags, c.obj)
@@ -757,16 +1023,16 @@ impl WdtRoundtrip {
 
 impl Space for WdtRoundtrip {
     fn len(&self) -> u64 {
-        self.cases.len() as u64
+        self.len
     }
     fn describe(&self, i: u64) -> Value {
-        let c = &self.cases[i as usize];
+        let c = &(self.gen)(i);
         let m = self.model(c);
         json!({"space": self.name, "format": "WDT", "version": VNAMES[c.vi], "grid": c.g.describe(), "values": VALUE_MODES[c.values],
-               "mphd_flags": format!("{:#06x}", m.flags), "objects": OBJS[c.obj].name, "maid": MAID_MODES[c.maid]})
+               "mphd_flags": format!("{:#06x}", m.flags), "objects": objs()[c.obj].name, "maid": MAID_MODES[c.maid]})
     }
     fn run(&self, i: u64) -> CaseResult {
-        let c = &self.cases[i as usize];
+        let c = &(self.gen)(i);
         let m = self.model(c);
         let mut r = CaseResult::new();
         r.key = format!("{}:v{}m{}{}a{}f{:x}o{}", self.name, c.vi, c.maid, c.g.key(), c.values, m.flags, c.obj);
@@ -780,45 +1046,135 @@ impl Space for WdtRoundtrip {
     }
 }
 
+/// Large name lists / placement lists (thorough only): counts and lengths around 255/256/65535/65536.
+pub struct WdtObjects {
+    vms: Vec<(usize, usize)>,
+    rad: [u64; 4],
+}
+impl WdtObjects {
+    pub fn new(_tier: Tier) -> Self {
+        let mut vms: Vec<(usize, usize)> = (0..NV).map(|i| (i, 0)).collect();
+        vms.push((BFA, 1));
+        let rad = [MODF_COUNTS.len() as u64, NAME_SHAPES.len() as u64, 2, vms.len() as u64];
+        WdtObjects { vms, rad }
+    }
+    fn decode(&self, i: u64) -> (usize, usize, bool, usize, usize) {
+        let d = gen::mixed_radix(i, &self.rad);
+        let (vi, maid) = self.vms[d[3] as usize];
+        (vi, maid, d[2] == 1, d[1] as usize, d[0] as usize)
+    }
+}
+impl Space for WdtObjects {
+    fn len(&self) -> u64 {
+        gen::product(&self.rad)
+    }
+    fn describe(&self, i: u64) -> Value {
+        let (vi, maid, wmo, ns, mc) = self.decode(i);
+        json!({"space": "wdt_objects", "format": "WDT", "version": VNAMES[vi], "maid": MAID_MODES[maid], "map_type": if wmo { "wmo-only" } else { "terrain" },
+               "mwmo": NAME_SHAPES[ns], "modf_records": MODF_COUNTS[mc].map(|n| json!(n)).unwrap_or(json!("absent")), "grid": GRIDS[11]})
+    }
+    fn run(&self, i: u64) -> CaseResult {
+        let (vi, maid, wmo, ns, mc) = self.decode(i);
+        // object shape 0 = terrain, 4 = WMO-only; the lists are replaced by the generated ones
+        let mut m = make_model(vi, maid, GridSel::Pat(11), 1, if i % 2 == 0 { 0x5554 } else { 0xA8AA }, if wmo { 4 } else { 0 });
+        m.mwmo = name_shape(ns);
+        m.modf = MODF_COUNTS[mc].map(gen_modfs);
+        let mut r = CaseResult::new();
+        r.key = format!("wdt_objects:v{vi}m{maid}w{wmo}n{ns}c{mc}");
+        r.nontrivial = true;
+        let w = build(&m);
+        r.outcome = roundtrip(&w, &m, "wdt", &mut r);
+        r
+    }
+    fn case_timeout(&self) -> u64 {
+        120
+    }
+}
+
+/// the 64 subsets of the MPHD bits that `convert_wdt` adds or removes, each with the other free bits all clear / all set
+pub fn conv_flagsets() -> Vec<u32> {
+    let bits = [0x2u32, 0x4, 0x8, 0x10, 0x40, 0x80];
+    let all: u32 = bits.iter().sum();
+    let mut v = vec![];
+    for filler in [0u32, 0xFDFE & !all] {
+        for s in 0..64u32 {
+            let mut w = filler;
+            for (k, b) in bits.iter().enumerate() {
+                if s & (1 << k) != 0 {
+                    w |= b;
+                }
+            }
+            v.push(w);
+        }
+    }
+    v
+}
+
 /// convert_wdt over all (from, to) pairs
 pub struct WdtConv {
-    cases: Vec<(RtCase, usize)>,
+    len: u64,
+    gen: Gen<(RtCase, usize)>,
 }
 impl WdtConv {
     pub fn new(tier: Tier) -> Self {
-        let grids: Vec<usize> = tier.pick(vec![0, 1, 9, 8, 11, 13], (0..GRIDS.len()).collect());
-        let fl = [0u32, 0xFDFE, 0x5554, 0xA8AA];
-        let mut from: Vec<(usize, usize)> = (0..8).map(|i| (i, 0)).collect();
-        from.push((BFA, 1));
-        let mut cases = vec![];
-        for &(vi, maid) in &from {
-            for to in 0..8 {
-                for obj in 0..OBJS.len() {
-                    for &flags in &fl {
-                        for values in 0..2 {
-                            for &p in &grids {
-                                cases.push((RtCase { vi, maid, g: GridSel::Pat(p), values, flags, obj }, to));
+        if tier == Tier::Quick {
+            let grids: Vec<usize> = vec![0, 1, 9, 8, 11, 13];
+            let fl = [0u32, 0xFDFE, 0x5554, 0xA8AA];
+            let mut from: Vec<(usize, usize)> = (0..8).map(|i| (i, 0)).collect();
+            from.push((BFA, 1));
+            let mut cases = vec![];
+            for &(vi, maid) in &from {
+                for to in 0..8 {
+                    for obj in 0..OBJS_Q {
+                        for &flags in &fl {
+                            for values in 0..2 {
+                                for &p in &grids {
+                                    cases.push((RtCase { vi, maid, g: GridSel::Pat(p), values, flags, obj }, to));
+                                }
                             }
                         }
                     }
                 }
             }
+            let (len, gen) = from_vec(cases);
+            return WdtConv { len, gen };
         }
-        WdtConv { cases }
+        // thorough: sources = 10 versions + {BfA, Shadowlands, Dragonflight} x MAID modes {8+ids, 5 sections, chunk without flag, flag without chunk};
+        // targets = 10 versions.  Block 1: 14 grids x 2 x 4 flag sets x 8 shapes; block 2: 2 grids x 2 x 128 conversion-sensitive flag sets x 4 shapes
+        let mut from: Vec<(usize, usize)> = (0..NV).map(|i| (i, 0)).collect();
+        for vi in BFA..NV {
+            for m in 1..MAID_MODES_Q {
+                from.push((vi, m));
+            }
+        }
+        let mk = move |grids: Vec<usize>, fl: Vec<u32>, objl: Vec<usize>| -> (u64, Gen<(RtCase, usize)>) {
+            let from = from.clone();
+            let rad = [grids.len() as u64, 2, fl.len() as u64, objl.len() as u64, NV as u64, from.len() as u64];
+            (
+                gen::product(&rad),
+                Box::new(move |i| {
+                    let d = gen::mixed_radix(i, &rad);
+                    let (vi, maid) = from[d[5] as usize];
+                    (RtCase { vi, maid, g: GridSel::Pat(grids[d[0] as usize]), values: d[1] as usize, flags: fl[d[2] as usize], obj: objl[d[3] as usize] }, d[4] as usize)
+                }),
+            )
+        };
+        let (len, gen) = blocks(vec![mk((0..GRIDS.len()).collect(), vec![0u32, 0xFDFE, 0x5554, 0xA8AA], (0..OBJS_Q).collect()), mk(vec![9, 13], conv_flagsets(), vec![0, 1, 2, 7])]);
+        WdtConv { len, gen }
     }
 }
 impl Space for WdtConv {
     fn len(&self) -> u64 {
-        self.cases.len() as u64
+        self.len
     }
     fn describe(&self, i: u64) -> Value {
-        let (c, to) = &self.cases[i as usize];
+        let (c, to) = &(self.gen)(i);
         let m = make_model(c.vi, c.maid, c.g, c.values, c.flags, c.obj);
         json!({"space": "wdt_conv", "format": "WDT", "from": VNAMES[c.vi], "to": VNAMES[*to], "grid": c.g.describe(), "values": VALUE_MODES[c.values],
-               "mphd_flags": format!("{:#06x}", m.flags), "objects": OBJS[c.obj].name, "maid": MAID_MODES[c.maid]})
+               "mphd_flags": format!("{:#06x}", m.flags), "objects": objs()[c.obj].name, "maid": MAID_MODES[c.maid]})
     }
     fn run(&self, i: u64) -> CaseResult {
-        let (c, to) = &self.cases[i as usize];
+        let (c, to) = &(self.gen)(i);
         let m = make_model(c.vi, c.maid, c.g, c.values, c.flags, c.obj);
         let mut r = CaseResult::new();
         r.key = format!("wdt_conv:v{}m{}>{}{}a{}f{:x}o{}", c.vi, c.maid, to, c.g.key(), c.values, m.flags, c.obj);
@@ -848,8 +1204,11 @@ impl Space for WdtConv {
         if c.vi == BFA && *to == BFA && conv.maid != m.maid {
             r.viol("wdt convert: MAID per-tile file ids changed in a BfA->BfA conversion", "");
         }
+        if c.vi >= BFA && *to >= BFA && c.vi != *to && conv.maid != m.maid {
+            r.viol("wdt convert: MAID per-tile file ids changed in a conversion between two versions that both have the MAID chunk", format!("{}->{}", VNAMES[c.vi], VNAMES[*to]));
+        }
         // observation (not judged): an all-zero MAID added on the way to BfA makes get_tile/has_adt report "no tile"
-        if c.vi != BFA && *to == BFA {
+        if c.vi < BFA && *to >= BFA {
             let before = m.tiles.iter().filter(|t| t.0 & 1 != 0).count();
             if before > 0 && w.count_existing_tiles() == 0 {
                 r.count("wdt_conv_to_bfa_empty_maid_shadows_main_has_adt", 1);
@@ -860,6 +1219,119 @@ impl Space for WdtConv {
         conv_with_src_tiles.tiles = m.tiles.clone();
         let oc = roundtrip(&w, &conv_with_src_tiles, "wdt convert->write", &mut r);
         r.outcome = format!("converted maid:{}->{} mwmo:{}->{} | {}", m.maid.is_some(), conv.maid.is_some(), m.mwmo.is_some(), conv.mwmo.is_some(), oc);
+        r
+    }
+}
+
+/// Conversion chains that start from a parsed state (thorough only):
+/// build -> write -> read -> convert A->B -> write -> read -> convert B->C, against the direct conversion A->C.
+pub struct WdtChain {
+    from: Vec<(usize, usize)>,
+    rad: [u64; 7],
+}
+const CHAIN_GRIDS: [usize; 2] = [9, 13];
+const CHAIN_FLAGS: [u32; 4] = [0, 0xFDFE, 0x5554, 0xA8AA];
+impl WdtChain {
+    pub fn new(_tier: Tier) -> Self {
+        let mut from: Vec<(usize, usize)> = (0..NV).map(|i| (i, 0)).collect();
+        for vi in BFA..NV {
+            from.push((vi, 1));
+        }
+        let rad = [CHAIN_GRIDS.len() as u64, 2, CHAIN_FLAGS.len() as u64, OBJS_Q as u64, NV as u64, NV as u64, from.len() as u64];
+        WdtChain { from, rad }
+    }
+    fn decode(&self, i: u64) -> (RtCase, usize, usize) {
+        let d = gen::mixed_radix(i, &self.rad);
+        let (vi, maid) = self.from[d[6] as usize];
+        (RtCase { vi, maid, g: GridSel::Pat(CHAIN_GRIDS[d[0] as usize]), values: d[1] as usize, flags: CHAIN_FLAGS[d[2] as usize], obj: d[3] as usize }, d[5] as usize, d[4] as usize)
+    }
+}
+impl Space for WdtChain {
+    fn len(&self) -> u64 {
+        gen::product(&self.rad)
+    }
+    fn describe(&self, i: u64) -> Value {
+        let (c, b, to) = self.decode(i);
+        let m = make_model(c.vi, c.maid, c.g, c.values, c.flags, c.obj);
+        json!({"space": "wdt_chain", "format": "WDT", "from": VNAMES[c.vi], "via": VNAMES[b], "to": VNAMES[to], "grid": c.g.describe(), "values": VALUE_MODES[c.values],
+               "mphd_flags": format!("{:#06x}", m.flags), "objects": objs()[c.obj].name, "maid": MAID_MODES[c.maid]})
+    }
+    fn run(&self, i: u64) -> CaseResult {
+        let (c, b, to) = self.decode(i);
+        let m = make_model(c.vi, c.maid, c.g, c.values, c.flags, c.obj);
+        let mut r = CaseResult::new();
+        r.key = format!("wdt_chain:v{}m{}>{}>{}{}a{}f{:x}o{}", c.vi, c.maid, b, to, c.g.key(), c.values, m.flags, c.obj);
+        r.nontrivial = true;
+        let path = format!("{}->{}->{}", VNAMES[c.vi], VNAMES[b], VNAMES[to]);
+        // start from a parsed state, not from a freshly built object
+        let w0 = build(&m);
+        let Ok(bytes0) = write_wdt(&w0) else {
+            r.err_return = true;
+            r.outcome = "writer refused the source".into();
+            return r;
+        };
+        let mut cur = match WdtReader::new(Cursor::new(&bytes0), m.version).read() {
+            Ok(x) => x,
+            Err(e) => {
+                r.viol("wdt chain: reader rejects the writer's output", format!("{path} source: {e}"));
+                return r;
+            }
+        };
+        let mut declared = m.version;
+        for (step, &nv) in [b, to].iter().enumerate() {
+            if let Err(e) = convert_wdt(&mut cur, declared, VERSIONS[nv]) {
+                r.err_return = true;
+                r.outcome = format!("convert refused at step {}: {}", step + 1, e.to_string().chars().take(40).collect::<String>());
+                return r;
+            }
+            r.count("wdt_chain_conversions", 1);
+            declared = VERSIONS[nv];
+            let x = extract(&cur);
+            if let Some(idx) = (0..4096).find(|&k| x.tiles[k] != m.tiles[k]) {
+                r.viol(
+                    "wdt chain: a MAIN tile entry (flags / area id) changed along write->read->convert->write->read->convert",
+                    format!("{path} after step {} tile {} source=(flags {:#x}, area {:#x}) now=(flags {:#x}, area {:#x})", step + 1, xy(idx), m.tiles[idx].0, m.tiles[idx].1, x.tiles[idx].0, x.tiles[idx].1),
+                );
+                return r;
+            }
+            // the converted state must survive write -> read with the source tiles in its bytes
+            let mut expect = x.clone();
+            expect.tiles = m.tiles.clone();
+            let oc = roundtrip(&cur, &expect, "wdt chain->write", &mut r);
+            if step == 0 {
+                // continue from the parsed bytes of the intermediate file
+                let Ok(bytes1) = write_wdt(&cur) else {
+                    r.err_return = true;
+                    r.outcome = "writer refused the intermediate file".into();
+                    return r;
+                };
+                cur = match WdtReader::new(Cursor::new(&bytes1), declared).read() {
+                    Ok(x) => x,
+                    Err(_) => return r, // already reported by roundtrip
+                };
+            } else {
+                r.outcome = format!("chain ok | {oc}");
+            }
+        }
+        let chain = extract(&cur);
+        // per-tile file ids survive when every version on the path has the chunk
+        if c.vi >= BFA && b >= BFA && to >= BFA && chain.maid != m.maid {
+            r.viol("wdt chain: MAID per-tile file ids changed along a path of versions that all have the MAID chunk", path.clone());
+        }
+        // direct conversion of the freshly built object
+        let mut direct = build(&m);
+        if convert_wdt(&mut direct, m.version, VERSIONS[to]).is_ok() {
+            let d = extract(&direct);
+            if d.tiles != chain.tiles {
+                r.viol("wdt chain: MAIN tile entries after A->B->C differ from the direct conversion A->C", path.clone());
+            }
+            if d.flags != chain.flags || d.maid.is_some() != chain.maid.is_some() || d.mwmo != chain.mwmo || d.modf != chain.modf {
+                r.count("wdt_chain_differs_from_direct_in_non_tile_fields", 1); // observation, not judged
+            }
+        }
+        if c.vi == to {
+            r.count("wdt_chain_round_trips_a_b_a", 1);
+        }
         r
     }
 }
